@@ -121,6 +121,14 @@ func elemLists() [][]Elem {
 		{Kind: kNode, ID: 5, Mask: 1<<2 | 1<<6, Salt: 1, Tags: 1}, {Kind: kRelation, ID: 5, Sub: 4, Salt: 4}, {Kind: kWay, ID: 5, Sub: 4, Salt: 4},
 		{Kind: kNode, ID: 0}, {Kind: kNode, ID: -1}, {Kind: kWay, ID: 0}, {Kind: kRelation, ID: 0}, {Kind: kChangeset, ID: 0}, {Kind: kNote, ID: 0}, {Kind: kUser, ID: 0},
 	})
+	// one uid under a different user name in every element (a renamed account in a history
+	// document), and the same names without any uid: what one element says about a user says
+	// nothing about the next
+	lists = append(lists, []Elem{
+		{Kind: kNode, ID: 21, Mask: 3, Salt: 1, UID: 777}, {Kind: kNode, ID: 22, Mask: 3, Salt: 2, UID: 777}, {Kind: kWay, ID: 23, Mask: 3, Salt: 3, UID: 777, Sub: 2},
+		{Kind: kRelation, ID: 24, Mask: 3, Salt: 4, UID: 777, Sub: 2}, {Kind: kChangeset, ID: 25, Mask: 3, Salt: 5, UID: 777}, {Kind: kNode, ID: 26, Mask: 3, Salt: 1, UID: 777},
+		{Kind: kNode, ID: 27, Mask: 1, Salt: 2}, {Kind: kNode, ID: 28, Mask: 1, Salt: 3}, {Kind: kWay, ID: 29, Mask: 1, Salt: 4, Sub: 2}, {Kind: kNode, ID: 30, Mask: 2, UID: 777},
+	})
 	return lists
 }
 
